@@ -206,6 +206,8 @@ mut("cli-dis-after-original", ["C16"], "code_data/_cli.py",
     "        res = code_data.to_code()\n", "        res = code_data.to_code() if len(code.co_consts) < 3 else compile('pass', '<string>', 'exec')\n")
 mut("cli-source-count-ge-1", ["C16"], "code_data/_cli.py",
     "if x is not None]) != 1:", "if x is not None]) < 1:")
+mut("cli-read-text", ["C16"], "code_data/_cli.py",
+    "        with tokenize.open(file) as f:\n            source = f.read()", "        source = file.read_text()")
 mut("cli-truthiness", ["C16"], "code_data/_cli.py",
     "    if len([x for x in [file, cmd, mod, eval_] if x is not None]) != 1:", "    if len(list(filter(None, [file, cmd, mod, eval_]))) != 1:")
 mut("cli-eval-wins-over-file", ["C16"], "code_data/_cli.py",
